@@ -203,7 +203,10 @@ func main() {
 			case 3:
 				limit = uint64(r.Intn(int(intrinsic) + 1))
 			case 4:
-				limit = gp.Gas() + uint64(r.Intn(3)) - 1
+				limit = gp.Gas() + uint64(r.Intn(3)) // at / just above what the pool still has
+				if limit > 0 && r.Intn(2) == 0 {
+					limit--
+				}
 			default:
 				limit = max(intrinsic, floor) + uint64(r.Intn(400000))
 			}
